@@ -248,3 +248,66 @@ def conf_text(cfg):
             if h.get("fill"):
                 out.append("    FillCharacter: %s" % json.dumps(h["fill"]))
     return "\n".join(out) + "\n"
+
+
+# ---------------------------------------------------------------------------------------------
+# texts that can reach a text output column (go/ast scan of the source, harness c05strings)
+
+def scan_strings(ctx):
+    if "strings" in _cache:
+        return _cache["strings"]
+    vh = ctx.harness()
+    p = subprocess.run([vh, "c05strings", "-src", os.path.join(REPO, "hermes")], stdout=subprocess.PIPE, stderr=subprocess.PIPE, text=True, timeout=300)
+    if p.returncode != 0:
+        raise BuildError("vh c05strings failed: " + p.stderr[-800:])
+    rows = [json.loads(l) for l in p.stdout.split("\n") if l.startswith("{")]
+    _cache["strings"] = rows
+    return rows
+
+
+def text_columns(cfgs):
+    """names of the text variables some configuration of the source shows (struct field names)"""
+    names = set()
+    for k, v in cfgs.items():
+        if "error" in v:
+            continue
+        for c in v["cols"]:
+            if kind_of(c) == "string":
+                names.add(c["sub"] if (isinstance(c["type"], dict) and "struct" in c["type"]) else c["name"])
+    return names
+
+
+def write_strings_gen(ctx, cfgs, rows):
+    cols = text_columns(cfgs)
+    items, dynamic = [], []
+    for r in rows:
+        if "field" not in r or r["field"] not in cols:
+            continue
+        for t in r["texts"]:
+            items.append((r["field"], t, "%s:%d" % (r["file"], r["line"])))
+        if r["kind"] in ("dynamic", "mixed"):
+            dynamic.append("%s <- %s (%s:%d)" % (r["field"], r["expr"][:60], r["file"], r["line"]))
+    with open(os.path.join(ctx.gen, "OutFmtStrings.v"), "w") as f:
+        f.write("(* generated on every run by `vh c05strings` (go/ast over %s/hermes): every string literal / literal format string that is\n"
+                "   assigned — directly, through a local variable or through another struct field — to a text variable an output column of\n"
+                "   the source's configurations shows *)\n"
+                "From Coq Require Import List Bool String.\nFrom Hermes Require Import OutFmtModel.\nImport ListNotations.\nOpen Scope string_scope.\n\n"
+                "Definition text_sources : list (string * string) := [\n  %s].\n\n"
+                "(* none of them contains a separator of the CSV style or a line break: with OutFmtProofs.csv_fields_exact such a text stays\n"
+                "   one field of one record *)\n"
+                "Theorem text_sources_sepfree : forallb (fun p => sepfree_text (snd p)) text_sources = true.\n"
+                "Proof. vm_compute. reflexivity. Qed.\n\nPrint Assumptions text_sources_sepfree.\n"
+                % (REPO, ";\n  ".join("(%s, %s)" % (_q(a), _q(b)) for a, b, c in items)))
+    return items, dynamic
+
+
+def unstable_text_records(ctx, outdir):
+    """harness c05text: the instability flag of the real nmove on a crafted state, one CSV record per configuration"""
+    vh = ctx.harness()
+    os.makedirs(outdir, exist_ok=True)
+    p = subprocess.run([vh, "c05text", "-examples", os.path.join(REPO, "examples"), "-out", outdir], stdout=subprocess.PIPE,
+                       stderr=subprocess.PIPE, text=True, timeout=300)
+    line = [l for l in p.stdout.split("\n") if l.startswith("{")]
+    if p.returncode != 0 or not line:
+        raise BuildError("vh c05text failed: " + p.stderr[-800:])
+    return json.loads(line[0])
